@@ -226,13 +226,8 @@ theorem validate_getDefault {E : Ext} {env : Env} (hwf : envWF env = true) (t : 
         exact validate_struct_canon hwf hs [] (hall cls s hs hd)
     | tree fl cls =>
       simp only [PTy.flags] at hn
-      simp only [hasDefault, PTy.flags, hn, Bool.false_or] at hd
-      simp only [getDefault, PTy.flags, hn]
-      cases hs : env.struct? cls with
-      | none => simp [hs] at hd
-      | some s =>
-        rw [hs] at hd
-        exact validate_tree_own hwf hs [] (hall cls s hs hd)
+      -- `StructTree.has_default()` is `False`: only the nullable wrapper gives a tree-typed field a default
+      simp [hasDefault, PTy.flags, hn] at hd
     | _ => simp [hasDefault, PTy.flags] at hn hd; simp [hn] at hd
 
 theorem getDefault_none_of_nullable {t : PTy} (h : t.flags.nullable = true) : getDefault t = .none := by
